@@ -424,3 +424,42 @@ PROPS['C03']['layers'].append(ML(P.p_m_c02, generic=[P.p_c02_c03], profile=dict(
 PROPS['C08']['layers'].append(ML(P.p_m_c08, P.p_m_c01, profile=dict(faults=0.3)))
 PROPS['C13']['layers'].append(ML(P.p_m_c13, profile=dict(faults=0.2), quick=(16, 400)))
 PROPS['C13']['refines'] = [(r'^C \d+ ', "a listing sent to a client is not the configured map (the replies of 'device' and 'nodes' are mirrored in Pm.Daemon: C13_nodes_listing)")]
+
+
+class IdWrapLayer:
+    """C11: client ids identify sessions - completions, telemetry and diagnostics are routed by id alone.  The id sequence wraps
+    (client.c:_next_cli_id; the constant is read from the tree by the translator).  This layer replays, on the real code, the one
+    history that matters: a session that is still connected when the sequence comes round."""
+    name = 'daemon-id-wrap'
+
+    def build(self): daemon.build()
+
+    def run(self, prop, tier, seed):
+        import re as _re, translate
+        self.build()
+        wrap = int(_re.search(r'def CLI_ID_WRAP : Nat := (\d+)', open(os.path.join(translate.GEN, 'Tables.lean')).read()).group(1))
+        sim = daemon.simulate_idwrap(wrap)
+        tr = trace.parse(sim)
+        V = []; st = collections.Counter()
+        if sim['died']: V.append(dict(sig='C11 daemon killed in the id-wrap scenario: ' + daemon.death_class(sim['stderr']), at=len(sim['ops']) - 1, detail=sim['stderr'][-800:]))
+        for p in tr:
+            ids = [c['id'] for c in p.clients.values()]
+            st['id-wrap: passes inspected'] += 1
+            dup = sorted({i for i in ids if ids.count(i) > 1})
+            if dup:
+                V.append(dict(sig='C11 two live sessions share one client id after the id sequence wrapped at %d' % wrap, at=p.i, ids=ids, shared=dup,
+                              detail='replies, telemetry and diagnostics are routed by _find_client(id), which returns the first match: the later session gets nothing, the earlier one gets both'))
+                break
+        for v in V: v['replay'] = dict(layer=self.name, wrap=wrap, ops=sim['ops'])
+        return dict(name=self.name, evaluations=len(sim['ops']), distinct=len(sim['ops']), samples=[dict(wrap=wrap, ops=sim['ops'], clients_at_end=[l for l in sim['couts'][-1] if l.startswith('C ')] if sim['couts'] else [])],
+                    stats=dict(st, **{'id sequence wraps at': wrap}), diffs=[], violations=V,
+                    rule='one evaluation = one pass of one fixed history on the real code: session A connects and stays, the id sequence is placed two before its wrap point (as read from client.c by the translator), four more sessions connect; not compared with the model, whose id counter is unbounded (TablesCheck.cliIdWrap_is_int_max says up to where that is faithful)')
+
+    def replay(self, rp, v):
+        sim = daemon.simulate_idwrap(rp['wrap'])
+        for op, co in zip(sim['ops'], sim['couts']):
+            print('---', op); print(*[l for l in co if l.startswith('C ') or l.startswith('Y accept')], sep='\n   ')
+        return 1
+
+
+PROPS['C11']['layers'].append(IdWrapLayer())
